@@ -1,7 +1,7 @@
 from typing import List, Type
 
 from sqlalchemy.inspection import inspect
-from sqlalchemy.orm.attributes import InstrumentedAttribute
+from sqlalchemy.orm.attributes import InstrumentedAttribute, QueryableAttribute
 from sqlalchemy.orm.decl_api import DeclarativeMeta
 from sqlalchemy.orm.relationships import RelationshipProperty
 from sqlalchemy.sql.expression import BinaryExpression, ClauseElement, ColumnClause
@@ -26,10 +26,11 @@ class AstToSqlAlchemyOrmVisitor(common._CommonVisitors, visitor.NodeVisitor):
 
     def visit_Identifier(self, node: ast.Identifier) -> ColumnClause:
         ":meta private:"
-        try:
-            return getattr(self.root_model, node.name)
-        except AttributeError:
+        field = getattr(self.root_model, node.name, None)
+        # Only mapped attributes are fields, not methods, `metadata`, etc.:
+        if not isinstance(field, QueryableAttribute):
             raise ex.InvalidFieldException(node.name)
+        return field
 
     def visit_Attribute(self, node: ast.Attribute) -> ColumnClause:
         ":meta private:"
@@ -44,10 +45,10 @@ class AstToSqlAlchemyOrmVisitor(common._CommonVisitors, visitor.NodeVisitor):
 
         # We'd like to reference the column on the related class:
         owner_cls = prop_inspect.entity.class_
-        try:
-            return getattr(owner_cls, node.attr)
-        except AttributeError:
+        field = getattr(owner_cls, node.attr, None)
+        if not isinstance(field, QueryableAttribute):
             raise ex.InvalidFieldException(node.attr)
+        return field
 
     def visit_Compare(self, node: ast.Compare) -> BinaryExpression:
         ":meta private:"
